@@ -364,6 +364,22 @@ def run_case(ctx, case):
             elif name == "clear":
                 s.clear()
                 m.clear()
+            elif name == "ior_refused":
+                # |= with a plain sequence whose LAST item is refused (ill-typed for a typed set / cannot be keyed): all or
+                # nothing - also for the items under keys that were already present and had been replaced on the way
+                operand = [u.item(ki, 0 if p == "same" else p) for ki, p in op[1]] + [u.bad_items()[op[2] % len(u.bad_items())]]
+                if enforce and any(u.key(ki) in m and m[u.key(ki)] != u.item(ki, 0 if p == "same" else p) for ki, p in op[1]):
+                    continue  # (an unequal payload is refused first, under enforcement: the element-level rule, checked above)
+                try:
+                    s |= operand
+                except CLEAN:
+                    if not check_obs("ior_refused", "changed_on_raise"):
+                        return
+                    ctx.count("op:ior_refused:raise")
+                    continue
+                ctx.count("op:ior_refused:accepted")  # (an untyped set takes anything its key function can key)
+                ctx.case(case, False)
+                return
             elif name in BINARY_NEW + BINARY_CMP + BINARY_INPLACE:
                 kind = op[1][0]
                 if kind == "setdup" and enforce:
@@ -539,6 +555,11 @@ def all_ops(u, typed, maxn_operand):
     for name in BINARY_CMP:  # the other built-in set type
         for operand in operands(u, maxn_operand):
             ops.append([name, ["fset", operand]])
+    for ki in range(u.nkeys):
+        for p in u.payloads:
+            for b in range(len(u.bad_items())):
+                ops.append(["ior_refused", [[ki, p]], b])
+                ops.append(["ior_refused", [[(ki + 1) % u.nkeys, 0], [ki, p]], b])
     if len(u.payloads) > 1:
         for name in BINARY_CMP:
             for ki in range(u.nkeys):
